@@ -137,10 +137,12 @@ func (r *Router) ServeHTTP(res http.ResponseWriter, req *http.Request) {
 }
 
 // HandleContext handle a given context
+//
+// Notice: the context is NOT put into the pool here. It is still in use by the caller (a handler
+// that re-dispatches its request), and ServeHTTP releases it when the request is finished.
 func (r *Router) HandleContext(c *Context) {
 	c.Reset()
 	r.handleHTTPRequest(c)
-	r.ctxPool.Put(c)
 }
 
 // handle HTTP Request
